@@ -112,16 +112,22 @@ PROPS = {
         note=KERNEL_NOTE,
         technique='deductive: VCs from sidecar contracts + order-theoretic spec lemmas (z3, quantified reals)'),
     'C14': dict(
-        title='real interval operations contain every exact result', level='exploration', engines=['ivbounded'], no_units=True,
-        claim='Bounded only (exact rational oracle): for all intervals with endpoints from a fixed list of 13 extended-real '
-              'values (infinite and half-infinite intervals, endpoints with more bits than the precision, zero-straddling '
-              'intervals) and precisions 1..53, the real libmpi add, sub, mul, div (divisor not containing 0), neg, abs, pos, '
-              'square and integer powers -3..5 are checked to contain the exact value at the endpoints, the midpoint and zero '
-              'of the operands. Not covered: exp, log, sqrt, sin, cos, tan, atan2, gamma family, real powers, conversions '
-              '(no exact oracle for transcendental functions here); no deductive claim yet for interval arithmetic '
-              '(the comparison operators are proved under C16).',
-        note='Exact rational arithmetic is the oracle; the enumerated domain is written into evidence.coverage.',
-        technique='bounded native containment check of the real interval operations against exact rational arithmetic (stand-in, not a proof)'),
+        title='real interval operations contain every exact result', level='other', engines=['ivbounded'],
+        claim='Deductive (all intervals incl. infinite and half-infinite ones, all precisions; the member points x, y are '
+              'universally quantified reals): from the real bodies of libmpi mpi_add, mpi_sub, mpi_neg, mpi_pos, mpi_abs, mpi_mul, '
+              'mpi_square, mpi_div (y != 0; no ZeroDivisionError escapes), mpi_mul_mpf, mpi_div_mpf the result is a valid interval '
+              'containing x op y; mpi_exp, mpi_log, mpi_sqrt, mpi_atan contain F(x) on finite operands given monotonicity of F. '
+              'These proofs rest on the real-order view of the mpf operations (contracts/realview.py): assumed contracts that read '
+              'the integer-level rounding contracts proved under C02/C06 as order relations (floor result <= exact <= ceiling '
+              'result, exact when prec == 0, IEEE-like special values), and assumed correct directed rounding of mpf_exp/log/sqrt/atan. '
+              'Bounded (exact rational oracle): add, sub, mul, div, neg, abs, pos, square and integer powers -3..5 on intervals '
+              'with endpoints from a fixed list of 13 extended-real values, precisions 1..53. Not covered: sin, cos, tan, atan2, '
+              'gamma family, real and integer powers (deductively), conversions, the context layer ctx_iv.',
+        note=KERNEL_NOTE + ' Real view: rval is uninterpreted (only its sign is linked to the sign field); the bridge from CRound to the '
+             'order relation is the definition of rounded_ok scaled by a positive power of two and is not machine-checked. '
+             'Exact rational arithmetic is the oracle of the bounded tier; its domain is written into evidence.coverage.',
+        explanation='deductive containment proofs over assumed real-order contracts of the mpf operations, plus a bounded exact-oracle tier; not a proof of the property from first principles',
+        technique='deductive VCs over the reals (universally quantified member points) from the real libmpi bodies + bounded native containment check'),
     'C29': dict(
         title='root finders return genuine roots', level='proof', engines=['guards'], no_units=True,
         claim='Control/data-flow contracts decided for all inputs by enumerating every path of the real function bodies '
@@ -206,12 +212,20 @@ PROPS = {
               '5 p-bit numbers around k*pi/2; inf/nan limits. (The remainder test of mpf_sqrt -- sqrtrem -- is under contract in C02/C01.)',
         note='Reference: the system MPFR through ctypes (trusted), two directed evaluations at p+80 bits; the enumerated domain is written into evidence.coverage.rule. Complex arguments, and functions MPFR does not provide, are not covered.', technique='bounded native check against exact values and a rigorous MPFR enclosure (stand-in, not a proof)'),
     'C17': dict(
-        title='mathematical constants at every precision and history', level='exploration', engines=['boundedprops'], no_units=True,
-        claim='Bounded only: pi, e, ln2, ln10, phi, degree are the correctly rounded p-bit values and euler, catalan, apery are within '
-              'one ulp for every precision 1..700 (quick, thinned above 130) / 1..3300 (thorough), all five rounding modes on the correct '
-              'side, in three request histories (ascending, descending, seeded random with repeats) with the memo caches reset in between. '
-              'Not covered: khinchin, glaisher, twinprime, mertens (no independent reference in this sandbox).',
-        note='Reference: the system MPFR through ctypes (trusted), two directed evaluations at p+80 bits; the enumerated domain is written into evidence.coverage.rule. Complex arguments, and functions MPFR does not provide, are not covered.', technique='bounded native check of every precision in a range and three cache histories against a rigorous MPFR enclosure (stand-in, not a proof)'),
+        title='mathematical constants at every precision and history', level='other', engines=['boundedprops'],
+        claim='Deductive (all precisions, all cache histories), under the documented assumption that a fixed-point routine '
+              'returns floor(c*2^prec): the inner function of constant_memo returns floor(c*2^prec) whatever was requested '
+              'before, keeps the cache invariant memo_val == floor(c*2^memo_prec) and only grows the cache; the inner function '
+              'of def_mpf_constant returns the correct rounding of floor(c*2^(prec+20)) (+1 for ceiling/up), hence a value on the '
+              'correct side of c for the directed modes. Both are verified from the real source of one instance (ln2_fixed / '
+              'mpf_ln2; all instances share the code object). Bounded (MPFR reference): pi, e, ln2, ln10, phi, degree are the '
+              'correctly rounded p-bit values and euler, catalan, apery are within one ulp for every precision 1..700 (quick, '
+              'thinned above 130) / 1..3300 (thorough), five rounding modes, three request histories. Not covered: that the '
+              'fixed-point routines really are floors (assumed; machin() is not an exact floor), khinchin, glaisher, twinprime, mertens.',
+        note='Reference: the system MPFR through ctypes (trusted), two directed evaluations at p+80 bits; the enumerated domain is written into evidence.coverage.rule.' + ' Deductive part: free variables of the nested functions are abstract objects (symbolic fields, assumed call '
+             'contract); int(prec*1.05+10) is read as exact real arithmetic; nested floors (lemma_cfix_shift) is a hint lemma.',
+        explanation='deductive contracts for the cache protocol and the directed-rounding adjustment; the numerical values are covered only by the bounded MPFR tier',
+        technique='deductive VCs for constant_memo / def_mpf_constant (assumed floor contract of the fixed-point routines) + bounded native check against MPFR'),
     'C18': dict(
         title='gamma-family functions are accurate', level='exploration', engines=['boundedprops'], no_units=True,
         claim='Bounded only (real arguments): relative error below 2^(8-p) for gamma, rgamma, loggamma (x > 0), digamma, factorial, '
@@ -272,7 +286,9 @@ def targets_for(prop):
             ps.update(p)
         if prop in ps:
             out.append(name)
+    has_real = any(C.BY_NAME[n].view == 'real' for n in out)
+    has_int = any(C.BY_NAME[n].view != 'real' for n in out)
     for name, ct in C.BY_NAME.items():
-        if ct.assumed and name not in out:
+        if ct.assumed and name not in out and (has_real if ct.view == 'real' else has_int):
             out.append(name)
     return out
